@@ -7,7 +7,7 @@ history correspondence (Tie B): the same op lines run on the Lean driver and on 
 from vlib import histcheck
 
 MODULE = "TriompheModel.Props.C10"
-EXTRA = ["TriompheModel.Proofs.HistLen", "TriompheModel.Props.Monitor", "TriompheModel.Props.C03Sched"]
+EXTRA = ["TriompheModel.Proofs.HistLen", "TriompheModel.Props.Monitor", "TriompheModel.Props.C03Sched", "TriompheModel.Props.ApiShape"]
 TAGS = ['C10']
 WEIGHTS = {'create': 16, 'iter': 8, 'intoThin': 12, 'conv': 18, 'cb': 20, 'clone': 10}
 
